@@ -287,8 +287,11 @@ class Ctx:
             "wall_s": round(time.time() - self.t0, 2),
             "violations": len(viol),
         }
-        os.makedirs(os.path.join(VERIF, "evidence"), exist_ok=True)
-        with open(os.path.join(VERIF, "evidence", self.prop + ".json"), "w") as f:
+        # evidence/ describes runs against /repo only; a run against another tree ($WZ_REPO, used for
+        # mutants and seeded changes) leaves it alone and writes under runs/
+        evdir = os.path.join(VERIF, "evidence") if os.path.realpath(REPO) == "/repo" else os.path.join(RUNS, "evidence-other-tree")
+        os.makedirs(evdir, exist_ok=True)
+        with open(os.path.join(evdir, self.prop + ".json"), "w") as f:
             json.dump(ev, f, indent=1, ensure_ascii=False)
             f.write("\n")
         if not self.keep:
